@@ -63,7 +63,7 @@ check(
 check(
     "C04", "bc",
     "Seeded search over sequences of add_dirichlet (constants, nodal arrays, functions of position; overlapping node sets, duplicated dofs, any order), add_neumann / add_lineLoad / add_surfLoad / add_volumeLoad, generic multi-point Lagrange conditions, beam connections (fixed / hinged) on 2D and 3D frames, Bc_Init, back-end switches (direct, cg, bicg, gmres, lgmres) and Solve, for Elastic (2D/3D), Thermal, Beam (Euler-Bernoulli and Timoshenko), HyperElastic (Newton-incremental) and meshes with orphan nodes. After every Solve: constrained dofs hold the sum of their entries, multi-point constraints are satisfied, the solution equals a dense KKT reference solve of the very K and F the simulation assembled (kappa-scaled; 10*kappa*rtol for iterative back ends), the residual is orthogonal to the constraint null space, nothing is NaN. Newton actors: a brand-new simulation with the same conditions started at the returned solution must find a residual at the level of the Newton tolerances and must not move. Injected back-end failures (for Newton loops also placed relative to the end of the loop, whose length is measured on a discarded twin): the failed Solve leaves the solution untouched and the retry passes all of the above.",
-    "Trusted: the dense reference (simkit.engines.bc._reference), NumPy, K and F as assembled (C01-C03, C09). Duplicated Dirichlet dofs are generated only without Lagrange conditions (the sum convention is documented for the elimination solver). Distributed loads are generated only on node sets that bound loaded elements. The bounded least-squares back end only accepts bounded problems and is exercised by the phase-field engine. Newton non-convergence with duplicated dofs is flagged only if the same problem with merged entries converges.",
+    "Trusted: the dense reference (simkit.engines.bc._reference), NumPy, K and F as assembled (C01-C03, C09). Duplicated Dirichlet dofs are generated with and without Lagrange conditions (sum of the entries on both solver paths). Distributed loads are generated only on node sets that bound loaded elements. The bounded least-squares back end only accepts bounded problems and is exercised by the phase-field engine. Newton non-convergence with duplicated dofs is flagged only if the same problem with merged entries converges.",
     "deterministic simulation: seeded constraint-call/back-end/fault sequences vs dense KKT reference model, ddmin-minimised replay files",
     "DESIGN.md section 5, C04",
 )
